@@ -20,7 +20,8 @@ RULE = ("schedule enumeration (E2): for each stream of 1..4 V3 packets (payload 
         "cut bound is fed to the real protocol object; after EVERY segment the packets readable without blocking are "
         "compared with a reference reassembler (a list): available exactly when the last byte arrived, once, in order, "
         "byte-identical. Streams <= 16 bytes: all 2^(n-1) segmentations. Wire seam: the same through an authenticated "
-        "LAN.send with encrypted replies, checking the virtual instant at which send returns. "
+        "LAN.send with encrypted replies, checking the virtual instant at which send returns. Header sweep: every value of the pad/type byte x 4 magic "
+        "bytes x 3 sizes (boundaries depend on marker and size field only). "
         "state = (unframed remainder, packets delivered); transition = one segment fed")
 ASSUMPTIONS = ["segments are delivered in order (TCP)", "protocol-seam packets use the handshake-response type so that read() "
                "returns the raw body for arbitrary payload bytes; the wire seam uses real encrypted responses"]
@@ -121,6 +122,8 @@ def shards(tier):
         out.append(("big", i, 0))
     for lo in range(0, 640, 40):
         out.append(("sizesweep", lo, lo + 40))
+    for lo in range(0, 256, 32):
+        out.append(("hdrsweep", lo, lo + 32))
     nparts = 8 if tier == "thorough" else 2
     for k in (1, 2, 3):
         for part in range(nparts):
@@ -150,7 +153,29 @@ def poll(proto) -> list[bytes]:
             raise HarnessError("read(timeout=0) suspended")
 
 
-def feed(w: World, stream: bytes, cuts: tuple, st: Stats, case, expect_cache: dict) -> bool:
+REJECTED = "rejected"
+
+
+def poll_any(proto) -> list:
+    """Like poll(), for packets of any type: a packet the protocol object rejects on reading still counts as one delivered."""
+    from msmart.lan import ProtocolError
+    out = []
+    while True:
+        c = proto.read(timeout=0)
+        try:
+            c.send(None)
+        except StopIteration as e:
+            out.append(e.value)
+        except asyncio.QueueEmpty:
+            return out
+        except ProtocolError:
+            out.append(REJECTED)
+        else:
+            c.close()
+            raise HarnessError("read(timeout=0) suspended")
+
+
+def feed(w: World, stream: bytes, cuts: tuple, st: Stats, case, expect_cache: dict, any_type: bool = False) -> bool:
     """Feed one segmentation; compare after every segment.  Returns True if it agreed everywhere."""
     proto = _LanProtocolV3()
     conn = Conn(w.net, 0, IP, PORT, _NullPeer())
@@ -165,15 +190,19 @@ def feed(w: World, stream: bytes, cuts: tuple, st: Stats, case, expect_cache: di
         exp = expect_cache.get(end)
         if exp is None:
             pk, rest = rc.v3_split(stream[:end])
-            exp = expect_cache[end] = ([p[8:] for p in pk], len(rest))
+            # any_type: only a handshake-response typed packet with the right magic yields its body; every other packet is
+            # delivered too, and may be rejected when read
+            exp = expect_cache[end] = ([p[8:] if not any_type or (p[4] == 0x20 and p[5] & 0xF == 1) else None for p in pk], len(rest))
         want = exp[0][delivered:]
-        got = poll(proto)
+        got = poll_any(proto) if any_type else poll(proto)
+        if any_type and len(got) == len(want):
+            want = [g if (x is None and g == REJECTED) else x for g, x in zip(got, want)]
         st.state((case["stream"], exp[1], len(exp[0])))
         if got != want:
             kind = ("early" if len(got) > len(want) else "late/missing" if len(got) < len(want) else "corrupt")
             st.violation(f"protocol seam: {kind} delivery", {**case, "cuts": list(cuts)},
-                         {"after_byte": end, "new_packets": [x.hex() for x in want]},
-                         {"new_packets": [x.hex() for x in got]},
+                         {"after_byte": end, "new_packets": [x.hex() if isinstance(x, bytes) else x for x in want]},
+                         {"new_packets": [x.hex() if isinstance(x, bytes) else x for x in got]},
                          f"stream={stream.hex()}")
             return False
         delivered += len(got)
@@ -379,9 +408,37 @@ def run_sizesweep(st: Stats, lo: int, hi: int):
         w.close()
 
 
+def run_hdrsweep(st: Stats, lo: int, hi: int):
+    """Every value of the pad/type byte x several magic bytes: packet boundaries depend on marker and size field only."""
+    w = World()
+    try:
+        for v in range(lo, hi):
+            for magic in (0x20, 0x00, 0xFF, 0x83):
+                for n in (0, 5, 30):
+                    first = bytearray(pkt(n, f"hs{n}"))
+                    first[4], first[5] = magic, v
+                    second = bytearray(pkt(2, "hs-next", 2))
+                    second[5] = (v * 7 + 3) & 0xFF
+                    stream = bytes(first) + bytes(second) + pkt(0, "hs-last")
+                    name = f"hdr{v:02x}/{magic:02x}/{n}"
+                    case = {"kind": "hdrsweep", "stream": name, "padtype": v, "magic": magic, "size": n}
+                    cache = {}
+                    L = len(stream)
+                    for cuts in ((), (5,), (6,), (8 + n - 1,), (8 + n,), (8 + n + 2,), tuple(range(1, L)) if n <= 5 else (L - 1,)):
+                        cuts = tuple(c for c in cuts if 0 < c < L)
+                        ok = feed(w, stream, cuts, st, case, cache, any_type=True)
+                        st.ev((name, cuts), "agree" if ok else "differ", True)
+    finally:
+        w.close()
+
+
 def run_shard(shard, tier) -> Stats:
     st = Stats()
     kind = shard[0]
+    if kind == "hdrsweep":
+        run_hdrsweep(st, shard[1], shard[2])
+        st.traces = st.evaluations
+        return st
     if kind == "sizesweep":
         run_sizesweep(st, shard[1], shard[2])
         st.traces = st.evaluations
